@@ -59,9 +59,23 @@ func (c Const) Validate(v bytes.Bytes) {
 		return
 	}
 
-	if v.String() != c.nodeValue.String() {
+	if !sameJSONValue(v, c.nodeValue) {
 		panic(errors.Format(errors.ErrInvalidConst, c.nodeValue.String()))
 	}
+}
+
+// sameJSONValue compares two scalar JSON tokens by value: strings after unquoting,
+// numbers as exact decimals, everything else textually.
+func sameJSONValue(a, b bytes.Bytes) bool {
+	if a.InQuotes() && b.InQuotes() {
+		return a.Unquote().Equals(b.Unquote())
+	}
+	if na, err := json.NewNumber(a); err == nil {
+		if nb, err := json.NewNumber(b); err == nil {
+			return na.Equal(nb)
+		}
+	}
+	return a.String() == b.String()
 }
 
 func (c Const) ASTNode() jschema.RuleASTNode {
